@@ -32,6 +32,7 @@ EXPLANATION = (
     ' Also evaluated here: the dump writer/reader rules of C11 (a model is only as good as the query it satisfies, including refined queries under --cache-solver), and that the value reported for an input is exactly the parsed solver value.'
     ' Round 4: a solver result that arrives during an early-exit shutdown is discarded before it is read (R04.6); serialisation completeness (C11 R11.1) is evaluated here too.'
     ' Round 5: fork-copy completeness (C20 R20.1) and the word-semantics rules of C06 are evaluated here too (a term built wrongly gives a model that is labelled valid and does not replay).'
+    ' Round 7: each rewrite of refine() is global, no count limit (R04.2).'
 )
 ASSUMPTIONS = [
     "solvers do not echo define-fun'd symbols in get-model output (so refined symbols vanish from a refined model)",
